@@ -123,6 +123,13 @@ fn registry() -> Vec<CheckDef>
 			case_timeout_ms: 60_000,
 			level_text: "complete enumeration of the finite literal matrix (integer types x type context x boundary magnitudes x spellings x signs; every byte value, raw character, escape form and unicode boundary in character and string position; adjacent-literal concatenations; every malformed form), each compiled by the real pipeline and executed with lli; run-time values, the L1142 lint and the rejection codes are compared with an arbitrary-precision reference model",
 		},
+		CheckDef {
+			id: "C10",
+			drive: checks::c10::drive,
+			work: checks::c10::work,
+			case_timeout_ms: 120_000,
+			level_text: "complete enumeration of operator x type x boundary operand pairs, all casts between integer types, two-operator expressions in both nestings, named lengths 0..8 through every parameter kind, and size-of for every member list up to length 3; each expression is evaluated by the real compiler as a constant (folded through LLVM) and at run time (lli) and both are compared with fixed-width reference arithmetic and a layout model",
+		},
 	]
 }
 
